@@ -43,3 +43,4 @@ SPEC = {'id': 'C15',
 SPEC['assumptions'].append("the new coordinator loads a group lazily, on the first request that names it (loadGroupIfMissing); until then its cleanup ticks do not see the group (modelled: Failover empties memory, every request starts with load). C15's statement is about what the new coordinator reports once asked, which is what the theorems cover")
 SPEC['level_text'] += " The generator regularly fails over immediately after an operation that removed a member (cleanup expiry, leave), the point where a missing persist shows as a view difference."
 SPEC['level_text'] += " C15_liveness_preserved: lastHeartbeat, session timeout (stores that keep timeouts) and the absence of a rebalance deadline survive the failover, so the expiry criterion gives the same verdict; the harness generates long heartbeat phases (longer than a session timeout) -> failover -> a request that loads the group -> cleanup tick -> member requests, and the oracle evaluates 'members of the Stable generation keep working' over all following operations incl. cleanup ticks until a join, a leave or an expiry that is due by the harness's own bookkeeping."
+SPEC['assumptions'].insert(0, "every coordinator operation holds c.mu from its first read of group state to its last store write (this is what makes the model's step relation atomic per operation, schedules = operation sequences). CHECKED by the harness on the real code: a gating store wrapper intercepts every store call the coordinator makes (Metadata, PutConsumerGroup, FetchConsumerGroup, DeleteConsumerGroup, CommitConsumerOffset) during every operation of every history and tests whether c.mu is free; if it is, the schedule's inner operations are run to completion on the same group while that store call is parked and the failure lock-released-across-store-call:<op>:<storecall> is reported with the schedule as replay (plus whatever the property oracles then observe); where the lock is held the inner operations run after the outer one, which is the order the lock enforces. Windows for every outer kind x inner kind are generated in every quick run.")
